@@ -213,6 +213,11 @@ fn main() {
                     1300 => run_shape::<1300>(cfg2, sh2, dir).await,
                     2000 => run_shape::<2000>(cfg2, sh2, dir).await,
                     500 => run_shape::<500>(cfg2, sh2, dir).await,
+                    // the three classes of the fan-out division (spec: MaxAmount): remainder just below a
+                    // whole entry, zero, and below one pointer
+                    807 => run_shape::<807>(cfg2, sh2, dir).await,
+                    808 => run_shape::<808>(cfg2, sh2, dir).await,
+                    809 => run_shape::<809>(cfg2, sh2, dir).await,
                     _ => run_shape::<4>(cfg2, sh2, dir).await,
                 }
             }).await
